@@ -88,6 +88,11 @@ CLAIMED = {
    text="Structural necessary conditions decided over every table entry and site: each opcode has a VM arm, the same operand-ness in VM, compiler and decompiler, a name, matching emit sites and jump relocation; constant tags and widths agree between writer and both readers; every allocation sized from the input is behind a bound check; every non-constant index/slice of the bytecode buffers and of the lexers' input is behind a length comparison; Push caps the stack and runLoop bounds pc and steps; after removing depth-guarded functions the parser's call graph has no cycle (two precedence-climbing self-recursions are shape-verified exceptions).",
    note="Does not cover memory proportionality in general, parser accept/reject correctness, disassembly text. Trusted: go/ast, go/types, go/ssa.",
    ref="DESIGN.md §3 C10"),
+ "C02": dict(
+   technique="static analysis: sibling-table agreement (opcode tables, dispatch arms of compiler vs interpreter, builtin name tables, request-binding name tables), no-silent-noop path rule over compile methods, engine-selection dominance in setupRoutes, constant-identity / operand-aliasing / body-detection shape rules",
+   text="Structural necessary conditions decided over every table entry and site: opcode tables agree across VM, compiler and decompiler; every construct the compiler accepts has an interpreter arm; no compile method succeeds without emitting or delegating; OpCall emission is gated on a resolvable name; names bound by the compiled handler equal those bound by the interpreter and every pre-declared name is bound; compiled registration happens only under useCompiler and injections / compile errors switch the whole module; constant-pool identity is type-aware; VM handlers never append onto operand storage; both handlers detect JSON bodies with the same operations.",
+   note="Does not cover agreement of evaluation results over programs x inputs (operator/coercion/builtin semantics, async-with-jumps on the VM). Known findings: validation statements compile to nothing; the compiler emits calls the VM cannot resolve. Trusted: go/ast, go/types, go/ssa.",
+   ref="DESIGN.md §3 C02"),
 }
 
 NA_REASONS = {}
